@@ -72,6 +72,8 @@ type Prop struct {
 	// BlockKind names a one-year case kind for which "block" cases are added: one process then works through
 	// consecutive years in a row (forwards or backwards), the way a long-running caller would, on top of the
 	// strided distribution that never puts two neighbouring years into the same process.
+	// First, if set, runs before anything else has touched the library in a worker process (even the seam warm-up)
+	First                     func(w *W, chunkIdx int)
 	BlockKind                 string
 	BlockQuick, BlockThorough [2]int // {number of blocks, years per block}; thorough count 0 = tile the whole range
 }
@@ -352,6 +354,9 @@ func workerMain(args []string) int {
 	chunkIdx := 0
 	if m := regexp.MustCompile(`chunk-(\d+)`).FindStringSubmatch(args[3]); m != nil {
 		chunkIdx, _ = strconv.Atoi(m[1])
+	}
+	if p.First != nil {
+		p.First(w, chunkIdx)
 	}
 	seamWarmup(chunkIdx)
 	if p.Init != nil {
